@@ -9,6 +9,9 @@
 #include <stdlib.h>
 #include <string.h>
 #include "EbSvtAv1Dec.h"
+#ifdef SVT_AV1_VERIF
+extern void svt_verif_dec_tool_stats(uint64_t *out, int reset);
+#endif
 
 typedef struct { uint8_t **tu; uint32_t *sz; int n; } TuList;
 
@@ -86,6 +89,10 @@ static int svtdec_run_ex(const char *stream, int threads, int is16, int annexb, 
             if (slack) free(buf);
         }
     fprintf(jf, "],\"nerr\":%d", nerr);
+#ifdef SVT_AV1_VERIF
+    { uint64_t st[16]; svt_verif_dec_tool_stats(st, 1); fprintf(jf, ",\"tools\":[");
+      for (int i = 0; i < 14; i++) fprintf(jf, "%s%llu", i ? "," : "", (unsigned long long)st[i]); fprintf(jf, "]"); }
+#endif
     fclose(of);
     if (!skip_deinit) {
         rc = svt_av1_dec_deinit(h);
